@@ -679,6 +679,25 @@ fn maybe_runtype_any_of_discriminated(
                             })
                             .collect::<BTreeSet<_>>();
 
+                        // a value that every variant admits selects the whole union again: printing its case
+                        // would not terminate, so such a key does not discriminate
+                        let selects_all = discriminator_strings.iter().any(|key| {
+                            object_vs.iter().all(|vs| {
+                                extract_union(
+                                    vs.get(&discriminator)
+                                        .expect("we already checked the discriminator exists")
+                                        .inner(),
+                                    named_schemas,
+                                )
+                                .into_iter()
+                                .filter_map(|it| it.extract_single_string_const())
+                                .any(|it| it == *key)
+                            })
+                        });
+                        if selects_all {
+                            continue;
+                        }
+
                         return Some(runtype_any_of_discriminated(
                             original_runtype,
                             flat_values,
